@@ -38,6 +38,7 @@ INVARIANT InvC05
 INVARIANT InvC06
 INVARIANT {c07}
 PROPERTY Termination
+{refine}
 CHECK_DEADLOCK FALSE
 '''
 LPM_MC = '''CONSTANTS
@@ -52,6 +53,7 @@ INVARIANT InvC05
 INVARIANT InvC06
 INVARIANT {c07}
 PROPERTY Termination
+{refine}
 CHECK_DEADLOCK FALSE
 '''
 EDGE_CFG_STP = '''CONSTANTS
@@ -92,6 +94,9 @@ TIERS = {
 # ---------------------------------------------------------------------------
 # (A) design level
 
+REFINE = 'INVARIANT CountIndInv\nPROPERTY CountSpec'
+
+
 def _mc(module, cfg_text, expect_error=None, timeout=1800):
     d = tlc.prepare()
     r = tlc.run(module, 'MC.cfg', workdir=d, cfg_text=cfg_text, timeout=timeout)
@@ -111,24 +116,31 @@ def design_level(tier, res):
     t = TIERS[tier]
     info = []
     n, bufs = t['stp_mc']
-    st = _mc('SingleThreadPrefetch.tla', STP_MC.format(maxn=n, bufs=bufs, guard='TRUE', c07='InvC07'))
+    st = _mc('SingleThreadPrefetch.tla', STP_MC.format(maxn=n, bufs=bufs, guard='TRUE', c07='InvC07', refine=REFINE))
     res.add_tlc(st)
     info.append({'spec': 'SingleThreadPrefetch', 'MaxN': n, 'Bufs': bufs, 'tlc': st,
-                 'checked': 'NoDeadlock InvC04 InvC05 InvC06 InvC07 Termination'})
-    st = _mc('SingleThreadPrefetch.tla', STP_MC.format(maxn=2, bufs='{1, 2}', guard='FALSE', c07='InvC07'),
+                 'checked': 'NoDeadlock InvC04 InvC05 InvC06 InvC07 Termination; refinement: '
+                            'implements STPCount.tla (PROPERTY CountSpec, INVARIANT CountIndInv)'})
+    st = _mc('SingleThreadPrefetch.tla', STP_MC.format(maxn=2, bufs='{1, 2}', guard='FALSE', c07='InvC07', refine=''),
              expect_error='Invariant NoDeadlock is violated')
     info.append({'scenario': 'sentinel guard removed -> TLC finds the documented deadlock', 'tlc': st})
-    st = _mc('SingleThreadPrefetch.tla', STP_MC.format(maxn=3, bufs='{1, 2}', guard='TRUE', c07='TightC07'),
+    st = _mc('SingleThreadPrefetch.tla', STP_MC.format(maxn=3, bufs='{1, 2}', guard='TRUE', c07='TightC07', refine=''),
              expect_error='Invariant TightC07 is violated')
     info.append({'scenario': 'pulled - delivered <= buffer + 1 is refuted (bound is tight)', 'tlc': st})
     n, bufs, ws = t['lpm_mc']
-    st = _mc('PoolMap.tla', LPM_MC.format(maxn=n, bufs=bufs, ws=ws, c07='InvC07'))
+    st = _mc('PoolMap.tla', LPM_MC.format(maxn=n, bufs=bufs, ws=ws, c07='InvC07', refine=REFINE))
     res.add_tlc(st)
     info.append({'spec': 'PoolMap', 'MaxN': n, 'Bufs': bufs, 'Workers': ws, 'tlc': st,
-                 'checked': 'NoDeadlock InvC04 InvC05 InvC06 InvC07 Termination'})
-    st = _mc('PoolMap.tla', LPM_MC.format(maxn=3, bufs='{1, 2}', ws='{1, 2}', c07='TightStart'),
+                 'checked': 'NoDeadlock InvC04 InvC05 InvC06 InvC07 Termination; refinement: '
+                            'implements PoolCount.tla (PROPERTY CountSpec, INVARIANT CountIndInv)'})
+    st = _mc('PoolMap.tla', LPM_MC.format(maxn=3, bufs='{1, 2}', ws='{1, 2}', c07='TightStart', refine=''),
              expect_error='Invariant TightStart is violated')
     info.append({'scenario': 'started - delivered <= buffer - 1 is refuted (bound is tight)', 'tlc': st})
+    if res.prop == 'C07':
+        # the read-ahead bound for EVERY dataset length, buffer size and pool size
+        from . import apalache
+        apalache.prove_inductive('STPCount.tla', info)
+        apalache.prove_inductive('PoolCount.tla', info)
     res.coverage['design_level'] = info
 
 
